@@ -198,6 +198,8 @@ def main():
     rng = random.Random(args.seed * 31337 + 7)
     if args.replay:
         cases = [json.load(open(args.replay))["case"]]
+        if "od" not in cases[0]:
+            cases = []              # a case of the block leg (replayed there)
     else:
         cases = []
         for i, sc in enumerate(scenarios):
@@ -244,7 +246,7 @@ def main():
            "rule": "a case is one (transfer kind, length, declared size, forced segmentation, disturbance kind, protocol step) "
                    "scenario reached by TLC in MC_SdoFaults (each replayed twice: download()/upload() and the file API) plus stale-before-request "
                    "and seeded long-transfer placements; non-trivial = the disturbance was actually applied to an exchange of the real client",
-           "samples": [cases[0]["scenario"], {"trace": traces[0]["ev"][:8]}],
+           "samples": [cases[0].get("scenario", {}), {"trace": traces[0]["ev"][:8]}] if cases else [],
            "states": mc.distinct, "transitions": mc.generated,
            "traces_validated_against_impl": val.traces, "model_scenarios": len(scenarios),
            "fault_kinds": kinds, "outcomes_of_disturbed_transfers": outcome,
